@@ -107,7 +107,7 @@ func cmdVerify(args []string) {
 	bad := 0
 	sort.SliceStable(obls, func(i, j int) bool { return obls[i].Fn < obls[j].Fn })
 	for i, o := range obls {
-		ok := o.Result == o.Expect
+		ok := o.Result == o.Expect || (o.Kind == "vacuity" && o.Result != "unsat")
 		if !ok {
 			bad++
 		}
